@@ -692,6 +692,21 @@ fn split(case: &Case, rep: &mut Report) {
         fs_b.files.insert(owner, pending);
         i = j;
     }
+    // "a #pragma once file contributes once per compilation": a third of the cuts mark every part
+    // and include some of them again further down
+    if rng.chance(1, 3) {
+        let names: Vec<String> = fs_b.files.keys().cloned().collect();
+        for n in &names {
+            let body = fs_b.files.get_mut(n).unwrap();
+            *body = format!("#pragma once\n{body}");
+        }
+        for _ in 0..rng.range(1, 3) {
+            if let Some(n) = names.get(rng.below(names.len().max(1) as u64) as usize) {
+                main.push_str(&format!("#include \"{n}\"\n"));
+            }
+        }
+        rep.count("cuts_with_pragma_once_parts_included_again", 1);
+    }
     fs_b.files.insert(task_a.entry.clone(), main);
     let mut fss = case.fss.clone();
     fss.push(fs_b);
